@@ -252,4 +252,10 @@ def dfs_workloads(profile, tier):
                         # by the user function) still surfaces at its position
                         for exc in ('VErrA', 'IndexError'):
                             out.append((dict(wl, fn_fail={str(pos): exc}, catch='VErrA'), min(k, 1)))
+                        # a catch set that lists a BaseException-only class: dropped like any other listed class
+                        out.append((dict(wl, fn_fail={str(pos): 'VBase'}, catch=['VBase', 'VErrA']), min(k, 1)))
+                    if wl['kind'] in ('lpm', 'pm') or (wl['kind'] == 'pf' and wl['workers'] > 1):
+                        # the function raises StopIteration (a bare next() inside it): whatever it is turned into, the
+                        # stream must not end silently there
+                        out.append((dict(wl, fn_fail={str(pos): 'StopIteration'}), min(k, 1)))
     return out
